@@ -702,7 +702,10 @@ def b_spline_basis(
 
     # wrap periodic values
     if periodic:
-        x = x % (1 + 1e-9)
+        # the period is the knot range; points inside it (both edges included) stay put,
+        # points to the left wrap into [0, 1), points to the right into (0, 1]
+        x[x < 0] = x[x < 0] % 1
+        x[x > 1] = 1 - (-x[x > 1]) % 1
 
     # append 0 and 1 in order to get derivatives for extrapolation
     x = np.r_[x, 0.0, 1.0]
